@@ -74,8 +74,9 @@ func errStr(err error) string {
 type c08Parsed struct {
 	ID    uint16   `json:"id"`
 	Flags uint16   `json:"flags"`
-	Name  string   `json:"name"`
+	Name  string   `json:"name"` // hex of the name bytes
 	NameL uint16   `json:"namelen"`
+	NCD   uint16   `json:"ncd"`
 	CD    []uint32 `json:"cd"`
 }
 
@@ -86,7 +87,7 @@ func c08ParsedOf(pm *core.FilterPipelineMessage) (uint8, []c08Parsed) {
 		if cd == nil {
 			cd = []uint32{}
 		}
-		out = append(out, c08Parsed{ID: uint16(f.ID), Flags: f.Flags, Name: f.Name, NameL: f.NameLength, CD: cd})
+		out = append(out, c08Parsed{ID: uint16(f.ID), Flags: f.Flags, Name: hex.EncodeToString([]byte(f.Name)), NameL: f.NameLength, NCD: f.NumClientData, CD: cd})
 	}
 	return pm.Version, out
 }
@@ -117,8 +118,9 @@ func c08Run(raw json.RawMessage) (interface{}, error) {
 		return nil, err
 	}
 	// writer Apply, stage by stage through the individual filters (what FilterPipeline.Apply does) ...
-	if c.Stages {
-		var stages []string
+	{
+		stages := []string{}
+		lens := []int{}
 		cur := append([]byte(nil), data...)
 		for _, f := range list {
 			var e error
@@ -129,9 +131,15 @@ func c08Run(raw json.RawMessage) (interface{}, error) {
 			if e != nil {
 				break
 			}
-			stages = append(stages, hex.EncodeToString(cur))
+			lens = append(lens, len(cur))
+			if c.Stages {
+				stages = append(stages, hex.EncodeToString(cur))
+			}
 		}
-		res["stages"] = stages
+		res["stage_lens"] = lens
+		if c.Stages {
+			res["stages"] = stages
+		}
 	}
 	// ... and through the pipeline object itself
 	var enc []byte
@@ -390,8 +398,7 @@ type c08E2E struct {
 	Values []float64   `json:"values"`
 	Opts   []c08Filter `json:"opts"` // in option order: deflate(level) | shuffle | fletcher32
 	SB     int         `json:"sb"`   // superblock version, -1 = default
-	// optional: flip one byte of the file at this offset from the END of the first stored chunk
-	Name string `json:"name"`
+	Keep bool        `json:"keep"` // keep the file and return its path (the caller deletes it)
 }
 
 func c08E2ERun(raw json.RawMessage) (interface{}, error) {
@@ -408,8 +415,10 @@ func c08E2ERun(raw json.RawMessage) (interface{}, error) {
 	}
 	path := f.Name()
 	f.Close()
-	defer os.Remove(path)
-	res := map[string]interface{}{"file": filepath.Base(path)}
+	if !c.Keep {
+		defer os.Remove(path)
+	}
+	res := map[string]interface{}{"file": filepath.Base(path), "path": path}
 	var wopts []interface{}
 	if c.SB >= 0 {
 		wopts = append(wopts, hdf5.WithSuperblockVersion(uint8(c.SB)))
